@@ -58,6 +58,13 @@ fn main() {
 }
 
 fn run_check(id: &str) -> i32 {
+    // watchdog: a check never hangs; running out of wall time is a machinery error, never a verdict
+    let limit = if report::tier() == "thorough" { 4 * 3600 } else { 20 * 60 };
+    std::thread::spawn(move || {
+        std::thread::sleep(std::time::Duration::from_secs(limit));
+        eprintln!("MACHINERY-ERROR: watchdog: the check did not finish within {} s", limit);
+        std::process::exit(2);
+    });
     let r = std::panic::catch_unwind(|| match id {
         "C01" | "C04" | "C06" | "C07" | "C08" | "C10" | "C11" | "C17" | "C20" => {
             let mut rep = Report::new(id, "model_checking");
